@@ -6,7 +6,7 @@ TB = ("Trusted base: Python's ast / clang 14's parser, the checker's own CFG, "
       "/verif/spec reference tables. ")
 
 # properties whose check is finished and registered in MANIFEST.json
-READY = ["C02", "C03", "C12", "C13", "C18"]
+READY = ["C02", "C03", "C05", "C12", "C13", "C14", "C18"]
 
 CLAIMS = {
     "C02": {
@@ -55,5 +55,24 @@ CLAIMS = {
                 "v0, exactly one burst-less indication with the noise constants on v1; otherwise exactly one forward); a muted sender "
                 "strips the burst before any copy and trans() turns that into NOPE; the noise constants lie inside the validated ranges.",
         "note": TB + "Not decided: 'exactly the next n matching bursts' as a count over a stream (follows by induction from the one-decrement-per-suppressed-burst rule).",
+    },
+    "C05": {
+        "technique": "decision tables of the receive path, structural normal form of the reply, return-value analysis of the dispatchers, verb/arity table extraction vs spec and vs trxcon's emitted commands (clang AST), exhaustive folding over the 4-bit version domain, buffer-size agreement",
+        "text": "Decides for every datagram: exactly one send_response iff the CMD signature verified (none for undecodable or unsigned datagrams), to the "
+                "address of the same recvfrom, with 'RSP ' + verb, status inserted at index 1, arguments, optional results + NUL, always sent; both "
+                "dispatchers return a status on every path, unknown verbs 0; the accepted (verb, argc) table equals spec/trxc.json and accepts every "
+                "command trxcon emits; handlers read only arguments their arity guarantees; SETFORMAT/MEASURE/tuning decision tables; "
+                "set_hdr_ver/pick_hdr_ver folded for all 16 versions; the control receive size covers trxcon's TRXC_BUF_SIZE.",
+        "note": TB + "Not decided: status/side effects as a function of the whole command history beyond the per-branch guard rules (POWERON/POWEROFF tables are under C12).",
+    },
+    "C14": {
+        "technique": "interprocedural exception-escape + taint analysis (raw/derived kinds, handler stack, class-hierarchy call resolution), length-guard interval analysis of the parser per header version, attribute-sanitisation rule (store-site guards vs partial operations on other paths), NULL-contradiction and buffer-bound rules on the clang AST of trx_if.c",
+        "text": "Decides for all octet strings: every index/unpack of TxMsg/RxMsg.parse_msg lies inside the length proven by its guards for each of "
+                "the 16 version codes and the parser raises only ValueError; no exception class raised by a partial operation on received "
+                "data (decode, int(), subscripts, unpack, %, randint, sleep) or by a reachable raise can leave recv_data_msg, handle_rx or the "
+                "capture reader; integers stored from commands into attributes used by partial operations on other paths (clock thread) are "
+                "range-checked where stored or guarded where used; in trxcon a strchr() result is never offset/dereferenced without a NULL "
+                "test and receive-buffer stores/offsets stay in bounds.",
+        "note": TB + "Not decided: correctness of later behaviour beyond 'no exception/UB path and guarded state stores'; OS errors; resource exhaustion. Known finding D13 (FAKE_TRXC_DELAY overflow) is listed in known_findings.json.",
     },
 }
